@@ -131,17 +131,17 @@ fn rt_function_id() {
     let y = roundtrip(&x, 1);
     assert!(y.id == x.id && y.debug_name.is_none(), "C18 FunctionId: same id, debug_name dropped");
 }
-/// Six concrete felts of 2, 2, 3, 4, 4, 4 digits: 2^64, 2^128-1 and the four wide constants.
+/// Three concrete felts of 2, 3 and 4 digits: 2^64, 2^128, P-1.
 fn multi_digit(i: usize) -> BigUint {
     match i {
         0 => BigUint::new(vec![0, 0, 1]),
-        1 => BigUint::new(vec![u32::MAX, u32::MAX, u32::MAX, u32::MAX]),
-        _ => wide(i - 2),
+        1 => wide(0),
+        _ => wide(2),
     }
 }
-const N_MULTI: usize = 6;
+const N_MULTI: usize = 3;
 /// UserTypeId carries a whole felt and its codec never looks at the digits (clone on both sides).
-/// Complete over ids < 2^64; ids of 2..=4 digits on six concrete values (a symbolic two-digit id through
+/// Complete over ids < 2^64; ids of 2..=4 digits on three concrete values (a symbolic two-digit id through
 /// both clones exhausts 22 GB under CBMC - measured).
 //@ props=C18 bound="id < 2^64 symbolic; wider ids in rt_user_type_id_wide"
 #[kani::proof]
@@ -152,7 +152,7 @@ fn rt_user_type_id() {
     let y = roundtrip(&x, 1);
     assert!(y.id.to_u64() == Some(v) && y.debug_name.is_none(), "C18 UserTypeId: same id, debug_name dropped");
 }
-//@ props=C18 bound="ids 2^64, 2^128-1, 2^128, 2^200, P-1, 2^256-1"
+//@ props=C18 bound="ids 2^64, 2^128, P-1 (2, 3 and 4 digits)"
 #[kani::proof]
 #[kani::unwind(6)]
 fn rt_user_type_id_wide() {
@@ -200,7 +200,7 @@ fn rt_generic_arg_user_type() {
         _ => assert!(false, "C18 GenericArg::UserType: variant preserved"),
     }
 }
-//@ props=C18 bound="user type ids 2^64, 2^128-1, 2^128, 2^200, P-1, 2^256-1"
+//@ props=C18 bound="user type ids 2^64, 2^128, P-1 (2, 3 and 4 digits)"
 #[kani::proof]
 #[kani::unwind(6)]
 fn rt_generic_arg_user_type_wide() {
@@ -330,19 +330,26 @@ fn total_branch_target() {
         BranchTarget::Statement(i) => i.0 as u128 == v && v != usize::MAX as u128,
     });
 }
-/// All integer-valued one-felt codecs on the four wide constants (concrete inputs).
+/// All integer-valued one-felt codecs on the four wide constants (concrete inputs), in two harnesses.
+//@ props=C14
 #[kani::proof]
 #[kani::unwind(6)]
-fn total_one_felt_codecs_wide() {
+fn total_one_felt_wide_ints() {
     let w = wides();
     total_one_felt_wide::<usize>(&w);
     total_one_felt_wide::<u64>(&w);
     total_one_felt_wide::<StatementIdx>(&w);
+    total_one_felt_wide::<BranchTarget>(&w);
+}
+//@ props=C14
+#[kani::proof]
+#[kani::unwind(6)]
+fn total_one_felt_wide_ids() {
+    let w = wides();
     total_one_felt_wide::<ConcreteTypeId>(&w);
     total_one_felt_wide::<ConcreteLibfuncId>(&w);
     total_one_felt_wide::<VarId>(&w);
     total_one_felt_wide::<FunctionId>(&w);
-    total_one_felt_wide::<BranchTarget>(&w);
 }
 /// UserTypeId takes any felt whatsoever: Ok iff a felt is present; the id is that felt.
 #[kani::proof]
@@ -608,13 +615,13 @@ fn version_ids_from_felts() {
 }
 //@ props=C14 bound="length 8, one wide constant at each of the six positions"
 #[kani::proof]
-#[kani::unwind(6)]
+#[kani::unwind(8)]
 fn version_ids_from_felts_wide() {
     let w = wides();
     for pos in 0..6 {
-        let mut arr = hexes([1, 2, 3, 4, 5, 6]);
+        let mut arr = std::mem::ManuallyDrop::new(hexes([1, 2, 3, 4, 5, 6]));
         arr[pos] = hex(w[pos % N_WIDE].clone());
-        let r = version_id_from_felt252s(&arr);
+        let r = version_id_from_felt252s(&arr[..]);
         assert!(is_invalid_input(&r), "C14 version_id_from_felt252s: a wide felt among the six => Err(InvalidInputForDeserialization), no panic");
     }
 }
